@@ -177,6 +177,29 @@ var permutePrograms = [][]string{
 	{"sub f1() STRING { return f2(); }", "sub f2() STRING { return \"x\"; }", "sub f3() STRING { return f1(); }", "sub vcl_recv {\n  #FASTLY recv\n  set req.http.X = f3();\n}"},
 	{"// @scope: fetch\nsub a { set beresp.ttl = 1s; }", "sub b { call a; }", "sub c { set req.http.C = std.itoa(\"c\"); }", "sub vcl_fetch {\n  #FASTLY fetch\n  call b;\n  call c;\n}"},
 	{"sub dup { esi; }", "sub dup { restart; }", "sub x { call dup; }", "sub vcl_recv {\n  #FASTLY recv\n  call x;\n}"},
+	// per-subroutine state: the same goto label in several subroutines (one of them functional), an unused goto, a goto without destination
+	{"sub a {\n  goto done;\n  esi;\n  done:\n}", "sub pick STRING {\n  goto done;\n  return \"a\";\n  done:\n  return \"b\";\n}", "sub c {\n  goto nowhere;\n}", "sub vcl_recv {\n  #FASTLY recv\n  goto done;\n  call a;\n  call c;\n  set req.http.P = pick();\n  done:\n}"},
+	{"sub a {\n  declare local var.x STRING;\n  set var.x = \"1\";\n}", "sub fb STRING {\n  declare local var.x STRING;\n  return var.x;\n}", "sub c {\n  declare local var.unused INTEGER;\n  l1:\n}", "sub vcl_recv {\n  #FASTLY recv\n  declare local var.x INTEGER;\n  call a;\n  call c;\n  set req.http.P = fb();\n}"},
+	// includes inside subroutine bodies (include resolution restores the context)
+	{"sub a {\n  set req.http.A = \"1\";\n  return(lookup);\n}", "sub b {\n  set req.http.B = undefined.b;\n}", "sub fc BOOL {\n  return true;\n}", "sub vcl_recv {\n  #FASTLY recv\n  call a;\n  call b;\n  if (fc()) { esi; }\n  return(lookup);\n}"},
+}
+
+// arity programs: user-defined functional subroutines with 0..2 parameters called with 0..3 arguments, in an expression,
+// in a condition and nested in another call; plain subroutines called with arguments
+func arityPrograms() []string {
+	var out []string
+	params := []string{"", "STRING var.a", "STRING var.a, INTEGER var.b"}
+	args := []string{"", "\"x\"", "\"x\", 1", "\"x\", 1, true"}
+	for _, p := range params {
+		for _, a := range args {
+			out = append(out,
+				fmt.Sprintf("sub pick(%s) STRING { return \"x\"; }\nsub vcl_recv {\n  #FASTLY recv\n  set req.http.B = pick(%s);\n}\n", p, a),
+				fmt.Sprintf("sub ok(%s) BOOL { return true; }\nsub vcl_recv {\n  #FASTLY recv\n  if (ok(%s)) { esi; }\n  set req.http.B = std.toupper(if(ok(%s), \"a\", \"b\"));\n}\n", p, a, a),
+				fmt.Sprintf("sub plain { esi; }\nsub vcl_recv {\n  #FASTLY recv\n  call plain(%s);\n}\n", a),
+			)
+		}
+	}
+	return out
 }
 
 func permutations(n int, visit func([]int)) {
@@ -217,6 +240,9 @@ func gen11(tier string, emit func(Case)) {
 	for _, s := range []string{"sub vcl_recv { error; }", "sub vcl_recv { return; }", "sub f() STRING { return; }", "sub vcl_recv { set req.http.A = ; }", "sub vcl_recv { call vcl_recv; }",
 		"sub a { call a; }\nsub vcl_recv { call a; }", "set req.http.A = \"snippet without scope\";", "// @scope: recv\nset req.http.A = \"snippet\";", ""} {
 		emit(Case{Kind: "total", Main: s, Label: "special"})
+	}
+	for _, s := range arityPrograms() {
+		emit(Case{Kind: "total", Main: s, Label: "arity"})
 	}
 	includeGraphs(emit)
 	// (2) determinism under every map iteration order
@@ -456,7 +482,7 @@ func init() {
 	engine.Register(engine.Spec[Case]{
 		ID:    "C11",
 		Level: "exploration",
-		Rule: "(1) totality under a fuel budget: every statement/declaration derivation within 2 (quick) / 3 (thorough) deviations, every single-site replacement of an expression atom by each of 10 atom kinds (ill-typed mutants) in every derivation within 1 deviation, special programs, and all 8192 include graphs over modules {main, a, b} where each file includes any subset of {a, b, itself, missing} at root level or inside a subroutine; each linted twice (repeat determinism). (2) determinism over Go's randomised map iteration: the instrumented build routes every range-over-map loop of linter and linter/context (found by go/types at build time) through a seam; for 20 programs with 2-3 entities per map and call graphs with cycles, every permutation at every dynamic loop execution is explored with at most 2 loop executions deviating from natural order. (3) all permutations of the declarations of 6 four-declaration programs. Oracles: no panic, no fuel exhaustion, identical diagnostic multisets (with locations for 1 and 2, without for 3). non-trivial = non-empty program / more than one order explored / non-identity permutation; distinct = distinct case",
+		Rule: "(1) totality under a fuel budget: every statement/declaration derivation within 2 (quick) / 3 (thorough) deviations, every single-site replacement of an expression atom by each of 10 atom kinds (ill-typed mutants) in every derivation within 1 deviation, special programs, functional subroutines with 0-2 parameters called with 0-3 arguments, and all 8192 include graphs over modules {main, a, b} where each file includes any subset of {a, b, itself, missing} at root level or inside a subroutine; each linted twice (repeat determinism). (2) determinism over Go's randomised map iteration: the instrumented build routes every range-over-map loop of linter and linter/context (found by go/types at build time) through a seam; for 20 programs with 2-3 entities per map and call graphs with cycles, every permutation at every dynamic loop execution is explored with at most 2 loop executions deviating from natural order. (3) all permutations of the declarations of 9 four-declaration programs (call cycles, duplicates, per-subroutine goto labels and locals incl. functional subroutines). Oracles: no panic, no fuel exhaustion, identical diagnostic multisets (with locations for 1 and 2, without for 3). non-trivial = non-empty program / more than one order explored / non-identity permutation; distinct = distinct case",
 		Gen:  gen11,
 		Key: func(c Case) string {
 			ks := make([]string, 0, len(c.Modules))
